@@ -20,11 +20,18 @@ HomeToken(cfg, d) ==
     IN IF idx = {} THEN [id |-> 0] ELSE cfg.tokens[Min(idx)]
 XwInit(s) ==
     [c \in ExtChainsOf(Cfg(s)) |->
-       [log |-> <<>>, h |-> 1, done |-> {},
+       [log |-> <<>>, h |-> 1, done |-> {}, pub |-> {},
         cust |-> [t \in ExtTokens(Cfg(s), c) |->
                     LET home == {d \in DOMAIN s.sup : HomeToken(Cfg(s), d).id # 0 /\ HomeToken(Cfg(s), d).ext = t /\ HomeToken(Cfg(s), d).chain = c}
                     IN IF home = {} THEN 0 ELSE LET d == CHOOSE d \in home : TRUE IN ConvDec(18, HomeToken(Cfg(s), d).dec, s.sup[d])],
         lbn  |-> [t \in ExtTokens(Cfg(s), c) |-> 0]]]
+
+\* every batch the hub ever offered for signing stays known to relayers (pub), whatever the hub does with it later
+XwObserve(xw, s) == [c \in DOMAIN xw |-> [xw[c] EXCEPT !.pub = @ \cup s.ch[c].bat]]
+
+\* what the Hub2 contract checks before paying a batch out (signatures aside): a fresh nonce for the token and a
+\* timeout that has not passed.  The Minter multisig executes what the hub still holds.
+ContractAccepts(xw, c, b) == b.n > xw[c].lbn[b.tok] /\ (c = "minter" \/ xw[c].h + 1 < b.to)
 
 \* the external effect of a scripted action of the external world
 XwApply(xw, a) ==
